@@ -462,7 +462,7 @@ func TestVerif_C03_MisbehavingPeer(t *testing.T) {
 		useDelivered := map[string]int{}
 		var oldReqs []*simDgram // unanswered checks of generations ended by Restart
 		for i := 0; i < nOps; i++ {
-			op := rapid.SampledFrom([]string{"tick", "tick", "peerRequest", "peerRequest", "peerRequest", "answer", "answer", "answer", "answer", "answerFromElsewhere", "answerToOtherLocal", "answerWithError", "dropRequest", "signal", "signal", "dupAnswer", "restart", "answerOld", "answerOld"}).Draw(rt, "op")
+			op := rapid.SampledFrom([]string{"tick", "tick", "peerRequest", "peerRequest", "peerRequest", "answer", "answer", "answer", "answer", "answerFromElsewhere", "answerToOtherLocal", "answerWithError", "dropRequest", "signal", "signal", "dupAnswer", "restart", "answerOld", "answerOld", "roleConflictLost"}).Draw(rt, "op")
 			arg := rapid.IntRange(0, 11).Draw(rt, "arg")
 			s.purgeNonRequests()
 			switch op {
@@ -511,6 +511,33 @@ func TestVerif_C03_MisbehavingPeer(t *testing.T) {
 			case "tick":
 				s.ag.tick()
 				s.ops = append(s.ops, "tick")
+			case "roleConflictLost":
+				// an authenticated request carrying the agent's own role with a tie-breaker the agent loses against:
+				// the agent switches role with checks (ordinary, nominating or triggered) possibly still in flight.
+				// What those checks may conclude when their answers arrive is decided by the role the agent has then.
+				if lite {
+					s.ag.tick()
+					s.ops = append(s.ops, "tick")
+
+					break
+				}
+				was := s.ag.a.isControlling.Load()
+				own, tb := "controlled", uint64(0)
+				if was {
+					own, tb = "controlling", ^uint64(0)
+				}
+				s.peerRequest(s.eps[arg%len(s.eps)], s.ag.socks[(arg/3)%len(s.ag.socks)], false, nil, 1000, own, tb)
+				if s.ag.a.isControlling.Load() != was {
+					lbl["role-switched"] = true
+					if len(s.agentRequests()) > 0 {
+						lbl["role-switched-with-checks-in-flight"] = true
+					}
+				}
+				peerRole = "controlled"
+				if !s.ag.a.isControlling.Load() {
+					peerRole = "controlling"
+				}
+				s.ops = append(s.ops, fmt.Sprintf("roleConflictLost(now controlling=%v)", s.ag.a.isControlling.Load()))
 			case "peerRequest":
 				ep := s.eps[arg%len(s.eps)]
 				to := s.ag.socks[(arg/3)%len(s.ag.socks)]
